@@ -342,6 +342,41 @@ def sinit (progs : List (List (Request Opts))) : SState Opts Factory :=
 
 end Spec
 
+/-! ## Vocabulary of the property statements (C10) -/
+section vocabulary
+variable {Opts Factory : Type}
+
+/-- Distinct code objects of the history have distinct values (no two live code objects compare
+equal without being identical). -/
+def ValInj (P : List (Request Opts)) : Prop := ∀ r ∈ P, ∀ r' ∈ P, r.code.val = r'.code.val → r.code = r'.code
+
+instance (P : List (Request Opts)) : Decidable (ValInj P) := by unfold ValInj; infer_instance
+
+/-- All requests of a history. -/
+def allReqs (progs : List (List (Request Opts))) : List (Request Opts) := progs.flatten
+
+/-- The one modelling assumption the real code can falsify: the conversion does not depend on the
+requester's namespace. -/
+def EnvIrrelevant (T : Code → Opts → Nat → Option Factory) : Prop := ∀ c o s s', T c o s = T c o s'
+
+/-- The conversion depends on the code *object* (through which the source text is found) only via
+its value.  False of the real code: annotations, decorators and the file are not part of the value. -/
+def SrcByVal (T : Code → Opts → Nat → Option Factory) : Prop := ∀ c c' o s, c.val = c'.val → T c o s = T c' o s
+
+/-- Decidable form for one history: functions with equal code have the same conversion-relevant view
+of their namespace. -/
+def SigCoherent (P : List (Request Opts)) : Prop :=
+  ∀ r ∈ P, ∀ r' ∈ P, r.code.val = r'.code.val → r.env.sig = r'.env.sig
+
+instance (P : List (Request Opts)) : Decidable (SigCoherent P) := by unfold SigCoherent; infer_instance
+
+/-- The finished requests of a state, with their outcome (`some f`: returned `f.instantiate(own
+environment)`; `none`: raised). -/
+def finished (s : State Opts Factory) : List (Request Opts × Option Factory) :=
+  (s.threads.map (fun th => th.results)).flatten
+
+end vocabulary
+
 /-! ## The subkey type of the real cache: `ConversionOptions` (model of C20) -/
 
 /-- `ConversionOptions.__eq__` (`Options.eq`: `as_tuple() == as_tuple()`). -/
